@@ -140,11 +140,19 @@ fn cmd_run(args: &[String]) -> ! {
             res.digest
         );
         println!("DIGEST engine={} profile={} {:016x}", res.engine, profile, res.digest);
-        for (class, (count, first_seed)) in &res.known_hits {
-            if !known_printed.contains(class) {
-                let what = known.iter().find(|k| &k.0 == class).map(|k| k.1.clone()).unwrap_or_default();
-                println!("KNOWN-FINDING: property={} class={} hits={} first_run_seed={:#x} {}", property, class, count, first_seed, what);
-                known_printed.push(class.clone());
+        // one line per listed finding (a finding may match several classes)
+        for (pattern, what) in &known {
+            let mut hits = 0u64;
+            let mut classes: Vec<&String> = Vec::new();
+            for (class, (count, _seed)) in &res.known_hits {
+                if crate::core::class_is_known(&[pattern.clone()], class) {
+                    hits += count;
+                    classes.push(class);
+                }
+            }
+            if hits > 0 && !known_printed.contains(pattern) {
+                println!("KNOWN-FINDING: property={} finding={} hits={} matched_classes={} -- {}", property, pattern, hits, classes.len(), what);
+                known_printed.push(pattern.clone());
             }
         }
         engines_json.push(crate::core::evidence::batch_to_json(&res));
